@@ -367,6 +367,7 @@ def tree_identity() -> dict:
 # --------------------------------------------------------------------------------------- driver
 def run_check(prop: str, tier: str, seed: int) -> int:
     t0 = time.time()
+    capture()
     mod = load_check(prop)
     budget = float(os.environ.get("VERIF_BUDGET_S", "0")) or (
         getattr(mod, "BUDGET_QUICK", 240) if tier == "quick" else getattr(mod, "BUDGET_THOROUGH", 3000))
